@@ -350,12 +350,18 @@ def gen_set_ops(rng, allow_dollar=True):
   if rng.random() < 0.3:                     # chains: every prefix of one long path
     long = [rng.choice(keys) for _ in range(rng.randint(3, 6))]
     pool += [long[:i] for i in range(len(long) + 1)]
+  deep = rng.random() < 0.35
+  if deep:                                   # many paths below one shared prefix, different tails, then binary operations
+    base = [rng.choice(keys) for _ in range(rng.randint(2, 4))]
+    pool = [base + [rng.choice(keys) for _ in range(rng.choice([0, 1, 1, 2, 3]))] for _ in range(rng.randint(4, 8))] + [base[:rng.randint(0, len(base))]]
   ops = []
-  n = rng.randint(3, 14)
-  for _ in range(n):
+  n = rng.randint(3, 14) if not deep else rng.randint(8, 18)
+  for i in range(n):
     r, r2, r3 = rng.randrange(3), rng.randrange(3), rng.randrange(3)
     p = rng.choice(pool)
     x = rng.random()
+    if deep and i < 6: x = x * 0.3           # first fill the registers
+    elif deep: x = 0.3 + x * 0.7
     if x < 0.30: code = 0
     elif x < 0.40: code = 1
     elif x < 0.48: code = 2
@@ -433,6 +439,12 @@ def gen_flat_dict(rng, depth=2):
     else:
       v = gen_leaf(rng)
     d[k] = v
+  if rng.random() < 0.2:                     # a list value and index keys addressing into it (merge into a list)
+    d2 = {base: [gen_leaf(rng) for _ in range(rng.randint(0, 3))]}
+    for _ in range(rng.randint(1, 3)):
+      d2[base + '[%d]' % rng.choice([0, 1, 2, 3, 7, -1, -2, -4])] = gen_leaf(rng)
+    if rng.random() < 0.5: d2.update(d)
+    return d2
   return d
 
 def has_perfect_int_dict(v):
@@ -823,7 +835,7 @@ def _set_run(ops):
           got = {T(x.keys) for x in st}
           if got != exp: return (name, 'subtree', 'subtree(%r) = %r' % (p, sorted(got, key=repr)))
       elif code == 17: regs[r3] = P + regs[r]; ref[r3] = {tp + m for m in ref[r]}; touched = [r, r3]
-      for t in touched + ([r2] if code in (6, 7, 8) else []):
+      for t in (0, 1, 2):
         s = state(t)
         if s: return (name, 'set-semantics', 'after op %d %s%r: %s' % (i, name, tuple(p) if code in (0, 1, 4, 17) else (), s))
     except Exception as e:
@@ -970,7 +982,7 @@ def run(ctx):
     oracle_jobs.append((oracle_order, (a, b, c)))
   # (D) KeyPathSet op sequences
   seqs = [s for s in CORPUS_SETS]
-  for _ in range(ctx.scale(700, 12000)):
+  for _ in range(ctx.scale(1500, 20000)):
     seqs.append(gen_set_ops(rng))
   for ops in seqs:
     out, _ = impl_set(ops, rng)
@@ -980,7 +992,7 @@ def run(ctx):
     oracle_jobs.append((oracle_set, (ops,)))
   # (E) nested values: lookup, traverse, pg.traverse, pg.query, flatten, canonicalize
   values = list(CORPUS_VALUES)
-  for _ in range(ctx.scale(350, 6000)):
+  for _ in range(ctx.scale(450, 6000)):
     values.append(gen_value(rng, rng.choice([1, 2, 2, 3, 3, 4]), int_keys=rng.choice([0.0, 0.15, 0.4])))
   for v in values:
     nt = depth_of(v) >= 2
@@ -1040,8 +1052,12 @@ def run(ctx):
     out = impl_canon(sparse, d)
     ctx.hist('canonicalize_outcomes', 'value' if out[0] == 0 else ['KeyError', 'ValueError', 'IndexError', 'TypeError'][out[1]] if out[1] < 4 else 'other')
     add([25, sparse, epv(d)], out, 'canonicalize', True, dict(op='canonicalize', sparse_list_as_dict=bool(sparse), value=repr(d)[:200]))
-  for _ in range(ctx.scale(200, 3000)):
+  for _ in range(ctx.scale(300, 4000)):
     a, b = gen_value(rng, 3, 0.3), gen_value(rng, 3, 0.3)
+    if rng.random() < 0.35:                  # a dict of (possibly negative / out of range / sparse) indices merged into a list
+      a = [gen_leaf(rng) for _ in range(rng.randint(0, 4))]
+      b = {rng.choice([0, 1, 2, 3, 5, 9, -1, -2, -5, 10]): gen_value(rng, 1, 0.3) for _ in range(rng.randint(1, 4))}
+      if rng.random() < 0.3: a, b = {'k': a, 'z': 1}, {'k': b}
     add([27, 0, epv(a), epv(b)], impl_merge(a, b), 'merge_tree', depth_of(a) >= 1 and depth_of(b) >= 1, dict(op='merge_tree', dest=repr(a)[:150], src=repr(b)[:150]))
 
   model_outs = ctx.model_run(trees)
